@@ -202,9 +202,9 @@ Proof.
       { destruct (f_act f); auto; simpl in T; discriminate. }
       rewrite FA in *. repeat split; intros; try discriminate. apply built_release; auto.
     + (* SReleased *) apply RInv_updf; auto.
-      intros f' r F' _ [A [B C]]; unfold rinv in *; simpl in *. rewrite ES in *. repeat split; auto; discriminate.
+      intros f' r F' _ [A [B C]]; unfold rinv in *; simpl in *. repeat split; auto; discriminate.
     + (* SRepl *) apply RInv_updf; auto.
-      intros f' r F' _ [A [B C]]; unfold rinv in *; simpl in *. rewrite ES in *. repeat split; auto; discriminate.
+      intros f' r F' _ [A [B C]]; unfold rinv in *; simpl in *. repeat split; auto; discriminate.
   - (* retention *)
     unfold step_sui. destruct (sui_enabled st) eqn:EN; simpl; auto.
     apply RInv_upd; auto. intros f r F _ _.
@@ -338,10 +338,12 @@ Proof.
       apply built_release; auto. }
     subst r'. unfold active_release, release_mem, remove_docs_files in *. rewrite V in *.
     destruct o as [sk km cv]; destruct r as [a b c0 d e f0 g0 h rr]; simpl in *.
-    repeat split; intros; subst; simpl; auto;
-      try (specialize (HB H H0); unfold built, sealed_read_ok, sealed_file_ok in HB; simpl in HB;
-           repeat (apply andb_prop in HB as [HB ?]); destruct sk, km; simpl in *; auto; fail);
-      destruct sk, km; simpl; auto; discriminate.
+    destruct sk, km; simpl in *; repeat split; intros; try discriminate; auto;
+      match goal with
+      | S1 : f_sld f = true, S2 : f_ssui f = false |- _ =>
+          specialize (HB S1 S2); unfold built, sealed_read_ok, sealed_file_ok in HB; simpl in HB;
+          repeat (apply andb_prop in HB as [HB ?]); auto
+      end.
 Qed.
 
 (* T3: the file layer never turns an answer into an error - in every reachable state, for every label, in both modes *)
